@@ -4,6 +4,7 @@ package main
 // C02 C04 C10 C11 C12 C13 C14 C15 C16 (and C17 through the reference EVM).
 
 import (
+	"encoding/json"
 	"fmt"
 	"math/big"
 
@@ -123,7 +124,14 @@ func modelCheck(id string) checkFn {
 			if !c.Quick() {
 				o.Blocks += 20
 			}
+			if id == "C17" {
+				o.Hook = vmCallHook(c, c.Rng("vmcall", i))
+			}
 			hr := runHistory(c, i, c.Rng("hist-"+id, i), o)
+			if id == "C17" && len(hr.Results) > 0 && i%2 == 0 {
+				// read-only calls must not change state: a quiet twin that served no vm_call commits the same hashes
+				quietTwin(c, i, hr, "vm_call-changes-state")
+			}
 			c.Eval(1)
 			acc := 0
 			for _, v := range hr.Accepted {
@@ -146,3 +154,113 @@ func init() {
 	}
 }
 
+
+// ---- C17: vm_call queries (read-only contract calls) ---------------------------------------------
+
+type vmCallResult struct {
+	UsedGas    string `json:"usedGas"`
+	Err        string `json:"vmErr"`
+	ReturnData []byte `json:"returnData"`
+}
+
+// vmCallHook issues read-only contract calls through the query path after each block and compares
+// them with the reference EVM on the state of that height.
+func vmCallHook(c *Ctx, rng interface{ Intn(int) int }) func(hr *HistRun, h int64) error {
+	return func(hr *HistRun, h int64) error {
+		g := hr.G
+		if hr.M.Ref == nil || len(g.Contracts) == 0 {
+			return nil
+		}
+		for k := 0; k < 6; k++ {
+			to := addrBytes(g.Contracts[rng.Intn(len(g.Contracts))].Addr)
+			from := g.pick(g.All).Addr
+			slot := wordU(uint64(10 + rng.Intn(4)))
+			var data []byte
+			name := ""
+			switch rng.Intn(7) {
+			case 0:
+				name, data = "load", callData(2, slot, nil, nil)
+			case 1:
+				name, data = "balances", callData(11, g.pick(g.All).Addr, nil, nil)
+			case 2:
+				name, data = "store", callData(1, slot, wordU(uint64(rng.Intn(1000))), nil) // a write: must not persist
+			case 3:
+				name, data = "revertdata", callData(4, wordU(uint64(rng.Intn(99))), nil, nil)
+			case 4:
+				name, data = "static-load", callData(12, to, slot, wordU(2))
+			case 5:
+				name, data = "create", callData(8, nil, nil, nil) // creates a child inside the call: must not persist
+			default:
+				name, data = "destructself", callData(17, nil, nil, nil)
+			}
+			qh := h
+			if h > 2 && rng.Intn(3) == 0 {
+				qh = 1 + int64(rng.Intn(int(h)))
+			}
+			if hr.M.Ref.Snaps[qh] == nil || hr.M.Hist[qh] == nil {
+				continue
+			}
+			qd := append(append(append([]byte{}, from...), to...), data...)
+			res, err := hr.R.Query("vm_call", qd, qh)
+			if err != nil {
+				return err
+			}
+			ref, rerr := hr.M.Ref.CallAt(hr.M.Hist[qh], from, to, data, qh, hr.Times[qh])
+			c.Count("vm_call-queries", 1)
+			c.SetAdd("vm_call-kinds", name)
+			tag := fmt.Sprintf("history %s vm_call %s to %s at height %d (latest %d)", hr.Opts.Name, name, hx(to), qh, h)
+			if rerr != nil {
+				if res.Code == 0 {
+					hr.issue("C17", "vm_call-mismatch", fmt.Sprintf("%s: reference refuses the call (%v), application answers %s", tag, rerr, res.Value))
+				}
+				continue
+			}
+			if res.Code != 0 {
+				hr.issue("C17", "vm_call-mismatch", fmt.Sprintf("%s: application error code %d %q, reference executed (err=%v)", tag, res.Code, res.Log, ref.Err))
+				continue
+			}
+			var got vmCallResult
+			if err := json.Unmarshal(res.Value, &got); err != nil {
+				hr.issue("C17", "vm_call-mismatch", fmt.Sprintf("%s: unparsable answer %s", tag, res.Value))
+				continue
+			}
+			wantErr := ""
+			if ref.Err != nil {
+				wantErr = ref.Err.Error()
+			}
+			wantGas := fmt.Sprint(ref.UsedGas)
+			if got.UsedGas == "" {
+				got.UsedGas = "0"
+			}
+			if got.Err != wantErr || hx(got.ReturnData) != hx(ref.ReturnData) || got.UsedGas != wantGas {
+				hr.issue("C17", "vm_call-mismatch", fmt.Sprintf("%s: application {gas %s err %q ret %x}, reference {gas %s err %q ret %x}", tag, got.UsedGas, got.Err, got.ReturnData, wantGas, wantErr, ref.ReturnData))
+			}
+		}
+		return nil
+	}
+}
+
+// quietTwin replays the blocks of hr on a fresh replica that serves no queries and compares consensus results.
+func quietTwin(c *Ctx, i int, hr *HistRun, sig string) {
+	r, _, err := openReplica(c, c.Dir(fmt.Sprintf("%s-%d-quiet", hr.Opts.Name, i)), hr.G.G, SpawnOpt{}, true)
+	if err != nil {
+		c.Err(i, "quiet twin", err)
+		return
+	}
+	defer r.Close()
+	var appHash []byte
+	for bi, b := range hr.Blocks[:len(hr.Results)] {
+		res, err := execBlock(r, hr.G.G.ChainID, b, appHash)
+		if err != nil {
+			c.Err(i, "quiet twin", err)
+			return
+		}
+		appHash = res.Commit.Data
+		if a, bb := hr.Results[bi].consensusView(), res.consensusView(); a != bb {
+			hr.issue("C17", sig, fmt.Sprintf("history %s block %d: the replica that served read-only contract calls differs from the quiet one (%s)", hr.Opts.Name, b.Height, diffFirst(a, bb)))
+			hr.Report("C17")
+			return
+		}
+	}
+	c.Count("quiet-twin-comparisons", 1)
+}
